@@ -28,6 +28,8 @@ type Message struct {
 		// Err 异常情况
 		Err error `json:"err,omitempty"`
 	}
+	// active 平台主动下发产生的结果(超时 写失败)属于哪一次下发 终端的应答为nil 只按流水号匹配
+	active *ActiveMessage
 }
 
 func newTerminalMessage(jtMsg *jt808.JTMessage, terminalData []byte) *Message {
